@@ -138,7 +138,8 @@ def protocol(ctx, rep, P):
                 good = len(dr) == 1
                 if good:
                     dsl = backward_slice(dr[0][0], dr[0][2]["a"][1])
-                    good = fr["size"] in dsl["fields"] and any(op.startswith("Mul") for op in dsl["ops"]) and 0 in dsl["consts"]
+                    good = fr["size"] in dsl["fields"] and any(op.startswith("Mul") for op in dsl["ops"]) and 0 in dsl["consts"] and not dsl["calls"] and \
+                        not [op for op in dsl["ops"] if op.replace("WithOverflow", "") not in ("Mul", "Add", "Eq", "Ne")]
                 rep.check(P + ".sib", "%s write: drains exactly block size x encoded blocks from the front" % name, good, loc_of(b))
                 ex = [(bb, i, t) for bb in reg for i, t in bb.calls() if re.search(r"Extend<.*>>::extend$", callee_name(t))]
                 rep.check(P + ".sib", "%s write: input is appended to the carry-over buffer first" % name,
